@@ -92,6 +92,9 @@ func Check(c *Case) (o core.Outcome) {
 			if len(j.Parts) > 0 && len(j.Parts[0].Body) >= 256 {
 				o.Label("body>=256B")
 			}
+			if len(j.Parts) > 0 && len(j.Parts[0].Body) >= 65536 {
+				o.Label("body>=64KiB")
+			}
 		}
 	}
 	if fail != nil {
@@ -136,6 +139,15 @@ func TestQuota(t *testing.T) {
 		c.Img.P = rapid.SampledFrom([]int{1, 16}).Draw(t, "P")
 		c.Img.Pix, c.Img.Class, c.Img.Seed = nil, "noise", rapid.Uint64().Draw(t, "seed")
 		return c
+	})
+	// a single code-block contribution of more than 8 KiB / more than 2^13..2^16 bytes: 15/16-bit
+	// noise in full 64x64 code-blocks (lengths that need the widest Lblock codes)
+	q["codeblock>8KiB"] = rapid.Custom(func(t *rapid.T) *Case {
+		im := &gen.Image{W: rapid.IntRange(128, 200).Draw(t, "w"), H: rapid.IntRange(128, 160).Draw(t, "h"), C: rapid.SampledFrom([]int{1, 3}).Draw(t, "c"),
+			P: rapid.SampledFrom([]int{15, 16}).Draw(t, "P"), Class: "noise", Seed: rapid.Uint64().Draw(t, "seed")}
+		cfg := j2k.ConfigGen().Draw(t, "cfg")
+		cfg.CBW, cfg.CBH, cfg.Levels, cfg.PW, cfg.PH = 64, 64, rapid.IntRange(0, 2).Draw(t, "lv"), 0, 0
+		return &Case{Img: im, Cfg: cfg}
 	})
 	core.RunQuota(t, ID, q, Check)
 }
